@@ -1,0 +1,85 @@
+//go:build verif
+
+// Contracts for package rtree, checked by /verif/engine (govc). Comment-only.
+// Box predicates (inBox, ...) are the spec functions of package geom.
+
+package rtree
+
+//@ pred validB(b geom.Bounds) = b.Min.X <= b.Max.X && b.Min.Y <= b.Max.Y
+//@ spec sq(x float64) float64 = x * x
+//@ spec d2(p geom.Point, x float64, y float64) float64 = sq(p.X - x) + sq(p.Y - y)
+//@ spec clampF(v float64, lo float64, hi float64) float64 = v < lo ? lo : (v > hi ? hi : v)
+
+//@ func dist
+//@   prop C12
+//@   mode real
+//@   ensures [euclid] result == sqrt(sq(p.X - q.X) + sq(p.Y - q.Y))
+
+//@ func intersect
+//@   prop C11
+//@   mode real
+//@   requires [nonnil] r1 != nil && r2 != nil
+//@   ensures [sound] result && validB(*r1) && validB(*r2) ==> inBox(*r1, goMax(r1.Min.X, r2.Min.X), goMax(r1.Min.Y, r2.Min.Y)) && inBox(*r2, goMax(r1.Min.X, r2.Min.X), goMax(r1.Min.Y, r2.Min.Y))
+//@   ensures [complete] (exists x float64, y float64 :: inBox(*r1, x, y) && inBox(*r2, x, y)) ==> result
+//@   modifies nothing
+
+//@ func containsPoint
+//@   prop C11
+//@   mode real
+//@   requires [nonnil] r != nil
+//@   ensures [def] result <==> inBox(*r, p.X, p.Y)
+//@   modifies nothing
+
+//@ func containsRect
+//@   prop C11, C12
+//@   mode real
+//@   requires [nonnil] r1 != nil && r2 != nil
+//@   ensures [sound] result ==> (forall x float64, y float64 :: inBox(*r2, x, y) ==> inBox(*r1, x, y))
+//@   ensures [complete] validB(*r2) && (forall x float64, y float64 :: inBox(*r2, x, y) ==> inBox(*r1, x, y)) ==> result
+//@   using mention(inBox(*r2, r2.Min.X, r2.Min.Y)), mention(inBox(*r2, r2.Max.X, r2.Max.Y)), mention(inBox(*r1, r2.Min.X, r2.Min.Y)), mention(inBox(*r1, r2.Max.X, r2.Max.Y))
+//@   modifies nothing
+
+//@ func enlarge
+//@   prop C11
+//@   mode real
+//@   requires [nonnil] r1 != nil && r2 != nil
+//@   ensures [join] r1.Min.X == goMin(old(r1.Min.X), old(r2.Min.X)) && r1.Min.Y == goMin(old(r1.Min.Y), old(r2.Min.Y)) && r1.Max.X == goMax(old(r1.Max.X), old(r2.Max.X)) && r1.Max.Y == goMax(old(r1.Max.Y), old(r2.Max.Y))
+//@   modifies *r1
+
+//@ func boundingBox
+//@   prop C11
+//@   mode real
+//@   requires [nonnil] r1 != nil && r2 != nil
+//@   ensures [join] fresh(result) && result.Min.X == goMin(r1.Min.X, r2.Min.X) && result.Min.Y == goMin(r1.Min.Y, r2.Min.Y) && result.Max.X == goMax(r1.Max.X, r2.Max.X) && result.Max.Y == goMax(r1.Max.Y, r2.Max.Y)
+//@   modifies nothing
+
+//@ func size
+//@   prop C11
+//@   mode real
+//@   requires [nonnil] r != nil
+//@   ensures [area] result == (r.Max.X - r.Min.X) * (r.Max.Y - r.Min.Y)
+//@   modifies nothing
+
+//@ func margin
+//@   prop C11
+//@   mode real
+//@   requires [nonnil] r != nil
+//@   ensures [perimeter] result == 2 * ((r.Max.X - r.Min.X) + (r.Max.Y - r.Min.Y))
+//@   modifies nothing
+
+//@ func minDist
+//@   prop C12
+//@   mode real
+//@   requires [nonnil] r != nil
+//@   ensures [attained] validB(*r) ==> result == d2(p, clampF(p.X, r.Min.X, r.Max.X), clampF(p.Y, r.Min.Y, r.Max.Y)) && inBox(*r, clampF(p.X, r.Min.X, r.Max.X), clampF(p.Y, r.Min.Y, r.Max.Y))
+//@   ensures [lower_bound] validB(*r) ==> (forall x float64, y float64 :: inBox(*r, x, y) ==> result <= d2(p, x, y))
+//@   modifies nothing
+
+//@ pred modest(p geom.Point, b geom.Bounds) = abs(p.X) <= 1e100 && abs(p.Y) <= 1e100 && abs(b.Min.X) <= 1e100 && abs(b.Min.Y) <= 1e100 && abs(b.Max.X) <= 1e100 && abs(b.Max.Y) <= 1e100
+
+//@ func minMaxDist
+//@   prop C12
+//@   mode real
+//@   requires [nonnil] r != nil
+//@   ensures [nonneg] validB(*r) && modest(p, *r) ==> result >= 0
+//@   modifies nothing
